@@ -403,12 +403,19 @@ def expm_part(run, np, em, quick):
                             bk = "%s pade%d%s" % (fname, pe[0][1], ("/I2 " + ie[0][1]) if ie else "")
                             branch_count[bk] = branch_count.get(bk, 0) + 1
                 # half is ignored when B is given
-                if n % 2 == 0:
-                    Bm2 = rng.standard_normal((n, 1))
-                    r1 = em.getEPQ(a, h, order=1, B=Bm2, half=True)
-                    r2 = em.getEPQ(a, h, order=1, B=Bm2, half=False)
-                    if any(x.tobytes() != y.tobytes() for x, y in zip(r1, r2)):
-                        run.violation("getEPQ: `half` changes the result although B is given", {"case": key}, dict(base_tags, fn="getEPQ"))
+                # half is ignored when B is given (documented), for every variant, odd and even numbers of input columns
+                for ncol in (1, 2):
+                    Bm2 = rng.standard_normal((n, ncol))
+                    for fname, fn in (("getEPQ", em.getEPQ), ("getEPQ1", em.getEPQ1), ("getEPQ2", em.getEPQ2)):
+                        try:
+                            r1 = fn(a, h, order=1, B=Bm2, half=True)
+                            r2 = fn(a, h, order=1, B=Bm2, half=False)
+                        except Exception as exn:
+                            run.violation("%s(B given, half=True) raised %r although `half` is documented as ignored when B is given" % (fname, exn),
+                                          {"case": key}, dict(base_tags, fn=fname, clause="half-ignored"))
+                            continue
+                        if any(np.shape(x) != np.shape(y) or np.asarray(x).tobytes() != np.asarray(y).tobytes() for x, y in zip(r1, r2)):
+                            run.violation("%s: `half` changes the result although B is given" % fname, {"case": key}, dict(base_tags, fn=fname, clause="half-ignored"))
     probes.restore()
     run.extra["largest error / tolerance on the unchanged tree"] = round(worst, 4)
     run.extra["branches executed"] = branch_count
